@@ -71,6 +71,35 @@ def check(run, repo):
     o2, f2 = repo.find_method(ci, 'get_GoRT')
     run.check(same(G, want), 'TWIN.G=H-S', 'References.get_GoRT', 'twin', 'G adjustment is not H - S (S=0)', o2.module, f2)
 
+    # ---- application through a species: the species hands over the composition the references are described by ---
+    sci = repo.cls('pmutt.statmech.StatMech')
+    for dname in ('elements', 'groups'):
+        I2 = Interp(repo)
+        D2 = I2.D
+        T2, Tr2 = D2.sym('T'), D2.sym('T_ref')
+        comp = {'elements': DictV({'A': D2.sym('nA'), 'B': D2.sym('nB')}),
+                'groups': DictV({'CH3': D2.sym('gA'), 'OH': D2.sym('gB')})}
+        off = DictV({k: D2.sym('off_' + k) for k in comp[dname].d})
+        refs = Obj('refs', ci, attrs={'offset': off, 'T_ref': Tr2, 'descriptor': dname})
+        modes = {a_: opaque_obj(I2, a_, {'get_HoRT': ('T',), 'get_GoRT': ('T',), 'get_SoR': ('T',)})
+                 for a_ in ('trans_model', 'vib_model', 'rot_model', 'elec_model', 'nucl_model')}
+        sp = Obj('sp', sci, attrs=dict(modes, name='sp', elements=comp['elements'], groups=comp['groups'],
+                                       references=refs, misc_models=None))
+        owner2, fn2 = repo.find_method(sci, 'get_HoRT')
+        for q in ('get_HoRT', 'get_GoRT'):
+            with_refs = I2.call_method(sp, q, [], {'T': T2})
+            without = I2.call_method(sp, q, [], {'T': T2, 'use_references': False})
+            want_adj = C(0)
+            for k, nk in comp[dname].d.items():
+                want_adj = want_adj - off.d[k] * nk * Tr2 / T2
+            ok = isinstance(with_refs, Rat) and isinstance(without, Rat) and same(with_refs - without, want_adj)
+            run.check(ok, 'REF.apply', 'StatMech.' + q, 'references described by %s' % dname,
+                      'a species whose references are described by its %r shifts %s by %s, expected '
+                      '-(sum offset*n) * T_ref/T over that composition' % (
+                          dname, q[4:], show(with_refs - without, 160) if ok is False and isinstance(with_refs, Rat)
+                          and isinstance(without, Rat) else show(with_refs, 120)), owner2.module, fn2,
+                      sample='StatMech.%s with References(descriptor=%r): shift = -(sum offset*n)*T_ref/T' % (q, dname))
+
     # ---- fitting ---------------------------------------------------------------
     n_fit = 0
     for comps in ((('A', 'B'), ('A', 'B')), (('A', 'B'), ('B',), ('A', 'B', 'C')), (('A',), ('A', 'B'))):
